@@ -538,9 +538,11 @@ def run_history(h, mods, tmp):
     return obs
 
 
-def hist_line(h, obs):
+def hist_line(h, obs, variant="r"):
+    """variant: r = the repaired delete_old_all branch (current /repo), a = as it was before commit 867b445"""
     n = h["n_ens"] + 1
-    out = ["hist", str(n), "1" if h["delete_old"] else "0", "1" if h["delete_old_all"] else "0", str(len(obs["init"]))]
+    out = ["hist", str(n), "1" if h["delete_old"] else "0", "1" if h["delete_old_all"] else "0", variant,
+           lst(list(h["keep"] or [])), str(len(obs["init"]))]
     for pn, names in obs["init"]:
         out += [str(pn), lst(names)]
     flat = [op for ops in obs["ops"] for op in ops]
@@ -612,8 +614,10 @@ def part_b(ctx, tmp, only=None):
     mods = _imports()
     hs = gen_histories(ctx) if only is None else only
     allobs = [run_history(h, mods, tmp) for h in hs]
-    outs = ctx.driver([hist_line(h, o) for h, o in zip(hs, allobs)]) if ctx._driver_ok else None
+    outs = ctx.driver([hist_line(h, o, "r") for h, o in zip(hs, allobs)]) if ctx._driver_ok else None
+    outs_old = ctx.driver([hist_line(h, o, "a") for h, o in zip(hs, allobs)]) if ctx._driver_ok else None
     nfail = 0
+    fields = ("err", "live", "olds", "restart", "disk")
     for k, (h, obs) in enumerate(zip(hs, allobs)):
         key = f"B:n={h['n_ens']},del={h['delete_old']},all={h['delete_old_all']},keep={'y' if h['keep'] else 'n'}"
         ctx.count(len(obs["states"]), branch=key)
@@ -621,20 +625,58 @@ def part_b(ctx, tmp, only=None):
         if any(a for (a, _w, _s) in h["steps"]):
             ctx.distinct(("B", repr(h)))
         rep = {"part": "B", "history": h}
+        sigs = set()
         for sig, what, where in obs["fails"]:
             ctx.fail(sig, what, dict(rep, **where))
+            sigs.add(sig)
             nfail += 1
         if outs is not None:
             ms = model_states(outs[k], obs)
+            mo = model_states(outs_old[k], obs)
             for i, (c, m) in enumerate(zip(obs["states"], ms)):
-                if m is None or any(c[f] != m[f] for f in ("err", "live", "olds", "restart", "disk")):
-                    diff = None if m is None else {f: (c[f], m[f]) for f in ("err", "live", "olds", "restart", "disk") if c[f] != m[f]}
-                    ctx.disagree({"fn": "treat_output", "history": h, "call": i, "ops": obs["ops"][i]}, diff, "model state differs")
+                if m is None or any(c[f] != m[f] for f in fields):
+                    diff = None if m is None else {f: (c[f], m[f]) for f in fields if c[f] != m[f]}
+                    old = mo[i] if i < len(mo) else None
+                    as_old = old is not None and all(c[f] == old[f] for f in fields)
+                    ctx.disagree({"fn": "treat_output", "history": h, "call": i, "ops": obs["ops"][i]}, diff,
+                                 "model(repaired) differs" + ("; the code behaves like the model of the code before the repair (asIs)" if as_old else ""))
+                    if as_old and SIG_RMDIR not in sigs:
+                        ctx.fail(SIG_RMDIR, "treat_output behaves like the delete_old_all branch before the repair "
+                                            "(kept side files left behind / rmdir on a non-empty directory)", dict(rep, step=i))
+                        nfail += 1
                     break
         if k % 211 == 0:
             ctx.sample({"part": "B", "n_ens": h["n_ens"], "delete_old": h["delete_old"], "delete_old_all": h["delete_old_all"],
                         "keep": h["keep"], "calls": len(obs["states"]), "last": obs["states"][-1] if obs["states"] else None})
     return nfail
+
+
+def replay_corpus(ctx, tmp):
+    """corpus/C14/*.json first: witnesses of past findings, as recorded replay files"""
+    import json
+    from common import CORPUS
+    files = sorted((CORPUS / "C14").glob("*.json")) if (CORPUS / "C14").is_dir() else []
+    for f in files:
+        r = json.loads(f.read_text()).get("replay", {})
+        ctx.hit("corpus")
+        if r.get("part") == "B":
+            part_b(ctx, tmp, only=[r["history"]])
+        elif r.get("part") == "A":
+            np, PathStorage, Path, load_path, REPEX_state, System = _imports()
+            case = r["case"]
+            root = tempfile.mkdtemp(dir=tmp)
+            load = os.path.join(root, "load")
+            pdir = os.path.join(load, str(case["pn"]))
+            try:
+                p = build_path(case, root, Path, System)
+                PathStorage().output(case["step"], {"path": p, "dir": load})
+                pred = roundtrip_predicate(case, load_path(pdir), os.path.join(pdir, "accepted"), root)
+            except Exception as e:  # noqa: BLE001
+                pred = f"raised {type(e).__name__}: {e}"
+            ctx.count(1, branch="A:corpus")
+            if pred is not None:
+                ctx.fail("C14:roundtrip", pred, r)
+    ctx.extra["corpus_files"] = [f.name for f in files]
 
 
 def run(ctx):
@@ -648,6 +690,7 @@ def run(ctx):
     os.makedirs(ROOT, exist_ok=True)
     tmp = tempfile.mkdtemp(prefix="verif-c14-", dir=ROOT)
     try:
+        replay_corpus(ctx, tmp)
         part_a(ctx, tmp)
         ctx.extra["part_a_s"] = round(ctx.elapsed(), 1)
         part_b(ctx, tmp)
